@@ -159,7 +159,9 @@ def run_query(items):
 
 
 MALFORMED = ['edition', 'n_subsets', '$edition', '1.edition', ' edition', 'x%edition', '%a.edition', '%.edition',
-             '%1a.edition', '%one.length', '%1,5.x', '% .edition', '%0x1.length', '%1.5.x'.replace('.5', 'e')]
+             '%1a.edition', '%one.length', '%1,5.x', '% .edition', '%0x1.length', '%1.5.x'.replace('.5', 'e'),
+             # no leading '%' at all (nothing but blanks); a non-numeric section index in front of a dotted rest
+             '', ' ', '\t', '%a.b.c', '%..length', '%x.1.length', '%a.b.length']
 WELLFORMED = [('%edition', (None, 'edition')), ('%0.edition', (0, 'edition')), (' %3.n_subsets ', (3, 'n_subsets')),
               ('%12.x', (12, 'x')), ('%-1.y', (-1, 'y')), ('%x', (None, 'x'))]
 
